@@ -1210,6 +1210,13 @@ def handle(req):
         sh = s.de_scalar(H(req["share"]))
         k = s.nonce_generate(H(req["random"]), sh)
         return {"nonce": s.ser_scalar(k).hex(), "commitment": (s.ser_elem(s.base(k)).hex() if k else None)}
+    if op == "nonce_many":
+        sh = s.de_scalar(H(req["share"]))
+        res = []
+        for r in req["randoms"]:
+            k = s.nonce_generate(H(r), sh)
+            res.append([s.ser_scalar(k).hex(), (s.ser_elem(s.base(k)).hex() if k else None)])
+        return {"results": res}
     if op == "id_u16":
         return {"enc": s.ser_scalar(int(req["n"])).hex()}
     if op == "hash":
